@@ -1,555 +1,16 @@
 /-
-Agreement of the hand-written model with the definitions TRANSLATED FROM THE RUST SOURCE
-(`QmcModel/Generated/PureFns.lean`, written by `tools/translate_pure.py` on every run of a check).
+Umbrella of the agreement proofs "hand model == definitions translated from the Rust source"
+(`QmcModel/Generated/PureFns.lean`, tools/translate_pure.py).  The theorems live in ONE MODULE PER GROUP under
+`QmcProofs/PureFnsAgree/` (namespaces `Qmc.PureFnsAgree` and, for the theorems about QmcModel/Cluster.lean,
+`Qmc.PureFnsAgreeCluster` — names unchanged):
 
-Every theorem says: a hand-written model definition EQUALS (for all arguments) the term the translator produced
-from the current text of the corresponding Rust function / expression.  The file is re-checked by
-`checks/pure_fns.py` after the generated file has been refreshed, so an edit of one of the translated Rust
-functions changes `Qmc.Gen.*` and breaks the theorem that names it (or the translator fails closed).  No testing is
-involved.  See design_notes/Translator.md.
+  Prelude IsingHam Tempering Rvb Cluster ClusterIsing RefreshIsing RefreshGeneric Cutoff EnergyIsing EnergyGeneric
+  Diag HeatBath HeatBathIsing Convert Size
 
-Naming: `<generated name>_agree…`.  Hand models with several copies of the same Rust function (each property's
-model has its own) get one theorem per copy.  The copy of `longitudinal_hamiltonian` in Tempering.lean does NOT agree
-with the current source off the diagonal (it still carries the value `|h|` of the code before the fix 9464564): only
-the diagonal agreement is proved; reported in design_notes/Translator.md; no sampler path evaluates those entries.
+so that a translated function that stops agreeing takes down only its own group; `checks/pure_fns.py` builds and audits,
+per check, only the groups relevant to that check's property (design_notes/Translator.md).  This umbrella is listed in some
+checks' LEAN_TARGETS; it therefore imports ONLY the `Prelude` group (fixed text of the translation, never affected by a
+source edit) and must not import the others: it would go red, and every check with it, whenever any group does.
+`lake build QmcAll` imports every group.
 -/
-import QmcModel.Generated.PureFns
-import QmcModel.Ham
-import QmcModel.Cutoff
-import QmcModel.Diagonal
-import QmcModel.HeatBath
-import QmcModel.Tempering
-import QmcModel.Convert
-import QmcModel.Generic
-import QmcModel.Stepper
-import QmcModel.Rvb
-import QmcModel.IsingHam
-import QmcModel.SamplerCore
-import Mathlib.Tactic.NormNum
-import Mathlib.Tactic.Linarith
-
-namespace Qmc.PureFnsAgree
-
-open Qmc
-
-/-! ### the fixed prelude of the translation -/
-
-theorem fabs_agree : Gen.fabs = absR := rfl
-theorem fabs_agree_rvb : Gen.fabs = Rvb.absR := rfl
-theorem fabs_agree_isingHam : Gen.fabs = ratAbs := rfl
-theorem EPSILON_agree : Gen.EPSILON = eps := rfl
-theorem EPSILON_agree_rvb : Gen.EPSILON = Rvb.f64eps := rfl
-theorem powi_agree : Gen.powi = Tempering.powi := rfl
-
-/-! ### `two_site_hamiltonian`, `transverse_hamiltonian`, `longitudinal_hamiltonian` (src/sse/qmc_ising.rs) -/
-
-/-- Ham.lean `twoSiteHamiltonian` (C01, C15, C08 …) -/
-theorem two_site_hamiltonian_agree (i0 i1 o0 o1 : Bool) (j : Rat) :
-    twoSiteHamiltonian i0 i1 o0 o1 j = Gen.two_site_hamiltonian (i0, i1) (o0, o1) j := by
-  cases i0 <;> cases i1 <;> cases o0 <;> cases o1 <;>
-    simp [twoSiteHamiltonian, Gen.two_site_hamiltonian, fabs_agree]
-
-/-- the same, for pairs -/
-theorem two_site_hamiltonian_agree_pairs (ins outs : Bool × Bool) (j : Rat) :
-    Gen.two_site_hamiltonian ins outs j = twoSiteHamiltonian ins.1 ins.2 outs.1 outs.2 j := by
-  obtain ⟨a, b⟩ := ins
-  obtain ⟨c, d⟩ := outs
-  exact (two_site_hamiltonian_agree a b c d j).symm
-
-theorem transverse_hamiltonian_agree : transverseHamiltonian = Gen.transverse_hamiltonian := rfl
-
-/-- Ham.lean `longitudinalHamiltonian` -/
-theorem longitudinal_hamiltonian_agree : longitudinalHamiltonian = Gen.longitudinal_hamiltonian := by
-  funext i o h
-  cases i <;> cases o <;> rfl
-
-/-- Tempering.lean `twoSite` -/
-theorem two_site_hamiltonian_agree_tempering (i0 i1 o0 o1 : Bool) (j : Rat) :
-    Tempering.twoSite i0 i1 o0 o1 j = Gen.two_site_hamiltonian (i0, i1) (o0, o1) j :=
-  two_site_hamiltonian_agree i0 i1 o0 o1 j
-
-/-- Rvb.lean `twoSite` (diagonal element only: `ins = outs = (a, b)`) -/
-theorem two_site_hamiltonian_agree_rvb (a b : Bool) (j : Rat) :
-    Rvb.twoSite j a b = Gen.two_site_hamiltonian (a, b) (a, b) j := by
-  cases a <;> cases b <;> simp [Rvb.twoSite, Gen.two_site_hamiltonian, fabs_agree_rvb]
-
-/-- Rvb.lean `longitudinal` -/
-theorem longitudinal_hamiltonian_agree_rvb (h : Rat) (i o : Bool) :
-    Rvb.longitudinal h i o = Gen.longitudinal_hamiltonian i o h := by
-  cases i <;> cases o <;> simp [Rvb.longitudinal, Gen.longitudinal_hamiltonian, fabs_agree_rvb, Rat.sub_eq_add_neg]
-
-/-- IsingHam.lean `twoSite` (value lists of length 2) -/
-theorem two_site_hamiltonian_agree_isingHam (a b c d : Bool) (j : Rat) :
-    Qmc.twoSite [a, b] [c, d] j = Gen.two_site_hamiltonian (a, b) (c, d) j := by
-  cases a <;> cases b <;> cases c <;> cases d <;>
-    simp [Qmc.twoSite, Gen.two_site_hamiltonian, fabs_agree_isingHam]
-
-/-- IsingHam.lean `longitudinal` (value lists of length 1) -/
-theorem longitudinal_hamiltonian_agree_isingHam (i o : Bool) (h : Rat) :
-    Qmc.longitudinal [i] [o] h = Gen.longitudinal_hamiltonian i o h := by
-  cases i <;> cases o <;> rfl
-
-/-- Tempering.lean `longitudinalW`: agrees with the source ON THE DIAGONAL (the only entries a sampler reads) -/
-theorem longitudinal_hamiltonian_agree_tempering_diag (i : Bool) (h : Rat) :
-    Tempering.longitudinalW i i h = Gen.longitudinal_hamiltonian i i h := by
-  cases i <;> simp [Tempering.longitudinalW, Gen.longitudinal_hamiltonian, fabs_agree, Rat.sub_eq_add_neg]
-
-/- Off the diagonal `Tempering.longitudinalW true false h = |h|` while the source (after 9464564) returns 0: that
-copy of the model is stale there (reported in design_notes/Translator.md).  It is deliberately NOT stated as a
-theorem here, so that a repair of Tempering.lean by its owner does not break this file. -/
-
-/-! ### `is_valid_cluster_edge` (src/sse/qmc_traits/cluster.rs) -/
-
-theorem is_valid_cluster_edge_agree : isValidClusterEdge = Gen.is_valid_cluster_edge := by
-  funext c n
-  cases c <;> simp [isValidClusterEdge, Gen.is_valid_cluster_edge, beq_eq_decide]
-
-/-! ### the cutoff growth rule at its three sites -/
-
-theorem cutoff_rule_single_diagonal_step_agree : nextCutoff = Gen.cutoff_rule_single_diagonal_step := rfl
-theorem cutoff_rule_timestep_agree : nextCutoff = Gen.cutoff_rule_timestep := rfl
-theorem cutoff_rule_diagonal_update_agree : nextCutoff = Gen.cutoff_rule_diagonal_update := rfl
-
-/-! ### `get_energy_for_average_n` of both samplers -/
-
-/-- Convert.lean `IsingSampler.energy` -/
-theorem get_energy_for_average_n_ising_agree (g : IsingSampler) (avgN beta : Rat) :
-    g.energy avgN beta = Gen.get_energy_for_average_n_ising g.model.offset avgN beta := rfl
-
-/-- Convert.lean `GenericSampler.energy` -/
-theorem get_energy_for_average_n_generic_agree (q : GenericSampler) (avgN beta : Rat) :
-    q.energy avgN beta = Gen.get_energy_for_average_n_generic q.offset avgN beta := rfl
-
-/-- Generic.lean `energyForAverageN` -/
-theorem get_energy_for_average_n_generic_agree_gqmc (q : GQmc) (avgN beta : Rat) :
-    energyForAverageN q avgN beta = Gen.get_energy_for_average_n_generic q.offset avgN beta := rfl
-
-/-- Stepper.lean `energyForAvgN` (one definition for both samplers) -/
-theorem get_energy_for_average_n_agree_stepper (β off avg : Rat) :
-    energyForAvgN β off avg = Gen.get_energy_for_average_n_ising off avg β ∧
-    energyForAvgN β off avg = Gen.get_energy_for_average_n_generic off avg β := ⟨rfl, rfl⟩
-
-/-! ### `total_energy_offset`, `num_bonds`, the field guard -/
-
-/-- Ham.lean `IsingModel.offset` = `edge_offset + field_offset` with the translated pieces -/
-theorem total_energy_offset_agree (m : IsingModel) :
-    m.offset = Gen.total_energy_offset ((m.edges.map (fun e => Gen.edge_offset_term e.2)).sum)
-      (Gen.field_offset m.nvars m.transverse m.longitudinal) := rfl
-
-/-- Ham.lean `IsingModel.hasField` -/
-theorem field_guard_agree (m : IsingModel) : m.hasField = Gen.field_guard m.longitudinal := rfl
-
-/-- the guard as it is spelled in Tempering.lean (`if absR h > eps then …`) -/
-theorem field_guard_agree_tempering (h : Rat) : (absR h > eps) ↔ Gen.field_guard h = true := by
-  simp [Gen.field_guard, fabs_agree, EPSILON_agree]
-
-theorem num_bonds_single_diagonal_step_agree (m : IsingModel) :
-    m.numBonds = Gen.num_bonds_single_diagonal_step m.edges.length m.nvars m.longitudinal := rfl
-theorem num_bonds_single_rvb_sweep_agree (m : IsingModel) :
-    m.numBonds = Gen.num_bonds_single_rvb_sweep m.edges.length m.nvars m.longitudinal := rfl
-theorem num_bonds_set_enable_heatbath_agree (m : IsingModel) :
-    m.numBonds = Gen.num_bonds_set_enable_heatbath m.edges.length m.nvars m.longitudinal := rfl
-theorem num_bonds_timestep_agree (m : IsingModel) :
-    m.numBonds = Gen.num_bonds_timestep m.edges.length m.nvars m.longitudinal := rfl
-
-/-- Tempering.lean `IsingH.numBonds` -/
-theorem num_bonds_agree_tempering (H : Tempering.IsingH) :
-    H.numBonds = Gen.num_bonds_timestep H.nedges H.nvars H.h := by
-  simp [Tempering.IsingH.numBonds, Gen.num_bonds_timestep, fabs_agree, EPSILON_agree]
-
-/-- IsingHam.lean `IsingSpec.ham`: its bond count uses `h = 0` instead of the guard; equal whenever the field is
-zero or visible to the guard (true of the dyadic inputs of the correspondence runs) -/
-theorem num_bonds_agree_isingHam (s : IsingSpec) (hh : s.h = 0 ∨ absR s.h > eps) :
-    s.ham.nbonds = Gen.num_bonds_timestep s.nedges s.nvars s.h := by
-  have e : (0 : Rat) < eps := by norm_num [eps]
-  rcases hh with h0 | hb
-  · have : ¬ (eps < absR 0) := by
-      simp only [absR]
-      norm_num [eps]
-    simp [IsingSpec.ham, Gen.num_bonds_timestep, fabs_agree, EPSILON_agree, h0, this]
-  · have hne : s.h ≠ 0 := by
-      intro h0
-      rw [h0] at hb
-      simp only [absR] at hb
-      norm_num [eps] at hb
-    simp [IsingSpec.ham, Gen.num_bonds_timestep, fabs_agree, EPSILON_agree, hne, hb]
-
-/-! ### `metropolis_single_diagonal_update` (src/sse/qmc_traits/diagonal.rs) -/
-
-/-- idealised insertion acceptance = clip of translated numerator / denominator -/
-theorem diag_insert_prob_agree (β : Rat) (Nb : Nat) (w : Rat) (L n : Nat) :
-    accInsM β Nb w L n = clipProb (Gen.diag_numerator β Nb w) (Gen.diag_denominator L n) := rfl
-
-/-- idealised removal acceptance: the translated `denominator + 1.0` over the numerator -/
-theorem diag_remove_prob_agree (β : Rat) (Nb : Nat) (w : Rat) (L n : Nat) :
-    accRemM β Nb w L n =
-      clipProb (Gen.diag_remove_denominator (Gen.diag_denominator L n)) (Gen.diag_numerator β Nb w) := rfl
-
-/-- the decision of `genClipped` is the translated test `numerator > denominator || rng.gen_bool(numerator /
-denominator)` with `gen_bool` read off the RNG state (whenever `genClipped` does not model a panic) -/
-theorem diag_insert_accept_agree (rs : RS) (num den : Rat) (h : num > den ∨ den ≠ 0) :
-    (genClipped rs num den).1 = Gen.diag_insert_accept (fun p => (rs.genBool p).1) num den := by
-  unfold genClipped Gen.diag_insert_accept
-  by_cases h1 : num > den
-  · simp [h1]
-  · have h2 : den ≠ 0 := by
-      rcases h with h | h
-      · exact absurd h h1
-      · exact h
-    simp [h1, h2]
-
-/-- … and the draws it makes are exactly the translated short-circuit draw list -/
-theorem diag_insert_accept_draws_agree (rs : RS) (num den : Rat) (h : num > den ∨ den ≠ 0) :
-    (genClipped rs num den).2 =
-      (Gen.diag_insert_accept_draws num den).foldl (fun r p => (r.genBool p).2) rs := by
-  unfold genClipped Gen.diag_insert_accept_draws
-  by_cases h1 : num > den
-  · simp [h1]
-  · have h2 : den ≠ 0 := by
-      rcases h with h | h
-      · exact absurd h h1
-      · exact h
-    simp [h1, h2]
-
-/-- removal: `genClipped rs denominator numerator` is the translated `denominator > numerator ||
-rng.gen_bool(denominator / numerator)` -/
-theorem diag_remove_accept_agree (rs : RS) (num den : Rat) (h : den > num ∨ num ≠ 0) :
-    (genClipped rs den num).1 = Gen.diag_remove_accept (fun p => (rs.genBool p).1) num den := by
-  unfold genClipped Gen.diag_remove_accept
-  by_cases h1 : den > num
-  · simp [h1]
-  · have h2 : num ≠ 0 := by
-      rcases h with h | h
-      · exact absurd h h1
-      · exact h
-    simp [h1, h2]
-
-theorem diag_remove_accept_draws_agree (rs : RS) (num den : Rat) (h : den > num ∨ num ≠ 0) :
-    (genClipped rs den num).2 =
-      (Gen.diag_remove_accept_draws num den).foldl (fun r p => (r.genBool p).2) rs := by
-  unfold genClipped Gen.diag_remove_accept_draws
-  by_cases h1 : den > num
-  · simp [h1]
-  · have h2 : num ≠ 0 := by
-      rcases h with h | h
-      · exact absurd h h1
-      · exact h
-    simp [h1, h2]
-
-/-- the model's slot visit, empty slot: it uses exactly the translated numerator and denominator -/
-theorem metropolisSlot_none_agree (H : Ham) (β : Rat) (cutoff : Nat) (st : List Bool) (n : Nat) (rs : RS) :
-    metropolisSlot H β cutoff none st n rs =
-      (let (b, rs1) := rs.genRange H.nbonds
-       let vars := H.vars b
-       if cutoff < n ∨ varsInRange st vars = false then SlotRes.panic none st n rs1 else
-       let sub := readVars st vars
-       let (ins, rs2) := genClipped rs1 (Gen.diag_numerator β H.nbonds (H.w b sub sub)) (Gen.diag_denominator cutoff n)
-       if ins then ⟨some (Op.diagonal vars b sub (H.const b)), st, n + 1, rs2⟩ else ⟨none, st, n, rs2⟩) := rfl
-
-/-- the model's slot visit, diagonal operator: translated numerator and `denominator + 1.0`, arguments swapped -/
-theorem metropolisSlot_diag_agree (H : Ham) (β : Rat) (cutoff : Nat) (op : Op) (st : List Bool) (n : Nat) (rs : RS)
-    (hd : op.tagDiag = true) :
-    metropolisSlot H β cutoff (some op) st n rs =
-      (let b := op.bond
-       let vars := H.vars b
-       if cutoff < n ∨ varsInRange st vars = false then SlotRes.panic (some op) st n rs else
-       let sub := readVars st vars
-       let (rm, rs') := genClipped rs (Gen.diag_remove_denominator (Gen.diag_denominator cutoff n))
-         (Gen.diag_numerator β H.nbonds (H.w b sub sub))
-       if rm then ⟨none, st, n - 1, rs'⟩ else ⟨some op, st, n, rs'⟩) := by
-  simp only [metropolisSlot, hd, if_true]
-  rfl
-
-/-! ### the heat-bath gates (src/sse/qmc_traits/heatbath.rs) -/
-
-theorem hb_remove_prob_agree (β W : Rat) (L n : Nat) :
-    pRemoveHB β W L n =
-      Gen.hb_remove_gate (Gen.hb_remove_numerator L n)
-        (Gen.hb_remove_denominator (Gen.hb_remove_numerator L n) β W) := rfl
-
-theorem hb_insert_prob_agree (β W mw w : Rat) (L n : Nat) :
-    pInsertHB β W mw w L n =
-      Gen.hb_insert_gate (Gen.hb_insert_numerator β W)
-        (Gen.hb_insert_denominator L n (Gen.hb_insert_numerator β W)) * (mw / W) * (w / mw) := rfl
-
-/-- the model's heat-bath slot visit on an empty slot with the translated gate and rejection test -/
-theorem heatBathSlot_none_agree (H : Ham) (bw : BW) (β : Rat) (cutoff : Nat) (st : List Bool) (n : Nat) (rs : RS) :
-    heatBathSlot H bw β cutoff none st n rs =
-      (match bwTotal bw with
-       | none => SlotRes.panic none st n rs
-       | some W =>
-         if cutoff < n then SlotRes.panic none st n rs else
-         let num : Rat := Gen.hb_insert_numerator β W
-         let den : Rat := Gen.hb_insert_denominator cutoff n num
-         if den = 0 then SlotRes.panic none st n rs else
-         let (go, rs1) := rs.genBool (Gen.hb_insert_gate num den)
-         if !go then ⟨none, st, n, rs1⟩ else
-         let (u, rs2) := rs1.genRangeF 1
-         let (x, rs3) := rs2.genRangeF W
-         let b := indexForCumulative (cumul bw) x
-         let rs3 := rs3.noteMargin (cumMargin (cumul bw) x)
-         let maxw := bw.getD b 0
-         let vars := H.vars b
-         if bw.length ≤ b ∨ varsInRange st vars = false then SlotRes.panic none st n rs3 else
-         let sub := readVars st vars
-         let w := H.w b sub sub
-         let rs4 := rs3.noteMargin (u * maxw - w)
-         if Gen.hb_insert_test u maxw w then ⟨some (Op.diagonal vars b sub (H.const b)), st, n + 1, rs4⟩
-         else ⟨none, st, n, rs4⟩) := by
-  simp only [heatBathSlot, Gen.hb_insert_test, decide_eq_true_eq]
-  rfl
-
-/-- … and on a diagonal operator with the translated removal gate -/
-theorem heatBathSlot_diag_agree (H : Ham) (bw : BW) (β : Rat) (cutoff : Nat) (op : Op) (st : List Bool) (n : Nat)
-    (rs : RS) (hd : op.tagDiag = true) :
-    heatBathSlot H bw β cutoff (some op) st n rs =
-      (match bwTotal bw with
-       | none => SlotRes.panic (some op) st n rs
-       | some W =>
-         if cutoff < n then SlotRes.panic (some op) st n rs else
-         let num : Rat := Gen.hb_remove_numerator cutoff n
-         let den : Rat := Gen.hb_remove_denominator num β W
-         if den = 0 then SlotRes.panic (some op) st n rs else
-         let (rm, rs') := rs.genBool (Gen.hb_remove_gate num den)
-         if rm then ⟨none, st, n - 1, rs'⟩ else ⟨some op, st, n, rs'⟩) := by
-  simp only [heatBathSlot, hd, if_true]
-  rfl
-
-/-! ### `swap_on_chunks` (src/sse/parallel_tempering/tempering_container.rs) -/
-
-/-- Tempering.lean `swapOnChunks`: its decision is the translated function of the two relative weights, the two
-operator counts, the two temperatures and the uniform draw -/
-theorem swap_on_chunks_agree {H : Type} (I : Tempering.Iface H) (a b : Tempering.Replica H) (u : Rat) (evalH : Bool) :
-    (Tempering.swapOnChunks I a b u evalH).2.2 =
-      Gen.swap_on_chunks (I.relW a.ham b.ham a.cfg.slots) (I.relW b.ham a.ham b.cfg.slots)
-        (countOps a.cfg.slots) (countOps b.cfg.slots) a.beta b.beta u evalH := by
-  unfold Tempering.swapOnChunks Gen.swap_on_chunks Tempering.pSwap Tempering.relH
-  rw [powi_agree]
-  cases evalH <;> simp <;> split <;> simp_all
-
-/-- the model's decision record uses the same test -/
-theorem swap_on_chunks_agree_dec {H : Type} (I : Tempering.Iface H) (pos : Nat) (a b : Tempering.Replica H) (u : Rat)
-    (eq : Bool) :
-    (Tempering.mkDec I pos a b u eq).accepted =
-      Gen.swap_on_chunks (I.relW a.ham b.ham a.cfg.slots) (I.relW b.ham a.ham b.cfg.slots)
-        (countOps a.cfg.slots) (countOps b.cfg.slots) a.beta b.beta u (!eq) := by
-  rw [← swap_on_chunks_agree]
-  unfold Tempering.mkDec Tempering.swapOnChunks
-  simp only
-  split <;> simp_all
-
-/-! ### bond numbering: `QmcIsingGraph::hamiltonian`'s dispatch and the `bonds_fn` closures -/
-
-/-- Ham.lean `IsingModel.hamiltonian`: the arm taken is the translated dispatch, the arms call the translated
-matrix-element functions -/
-theorem hamiltonian_dispatch_agree (m : IsingModel) (bond : Nat) (ins outs : List Bool) :
-    m.hamiltonian bond ins outs =
-      (match Gen.hamiltonian_dispatch bond m.edges.length m.nvars with
-       | 0 => (match ins, outs with
-          | [i0, i1], [o0, o1] =>
-            Gen.two_site_hamiltonian (i0, i1) (o0, o1) ((m.edges[bond]?.map (·.2)).getD 0)
-          | _, _ => 0)
-       | 1 => (match ins, outs with
-          | [i], [o] => Gen.transverse_hamiltonian i o m.transverse
-          | _, _ => 0)
-       | 2 => (match ins, outs with
-          | [i], [o] => Gen.longitudinal_hamiltonian i o m.longitudinal
-          | _, _ => 0)
-       | _ => 0) := by
-  unfold IsingModel.hamiltonian Gen.hamiltonian_dispatch
-  by_cases h1 : bond < m.edges.length
-  · simp only [h1, decide_true, if_true]
-    split <;> simp_all [two_site_hamiltonian_agree]
-  · by_cases h2 : bond < m.edges.length + m.nvars
-    · simp only [h1, h2, decide_true, decide_false, if_true, if_false, Bool.false_eq_true]
-      rfl
-    · by_cases h3 : bond < m.edges.length + 2 * m.nvars
-      · simp only [h1, h2, h3, decide_true, decide_false, if_true, if_false, Bool.false_eq_true]
-        rw [longitudinal_hamiltonian_agree]
-        rfl
-      · simp only [h1, h2, h3, decide_false, if_false, Bool.false_eq_true]
-
-/-- Ham.lean `IsingModel.bondVars` / `bondConst` against the translated `bonds_fn` (`vars[k] = k`) -/
-theorem bonds_fn_timestep_agree (m : IsingModel) (b : Nat) :
-    m.bondVars b =
-        (if (Gen.bonds_fn_timestep b m.edges.length m.nvars).1.1
-         then [(Gen.bonds_fn_timestep b m.edges.length m.nvars).2]
-         else (m.edges[(Gen.bonds_fn_timestep b m.edges.length m.nvars).2]?.map (·.1)).getD []) ∧
-      m.bondConst b = (Gen.bonds_fn_timestep b m.edges.length m.nvars).1.2 := by
-  unfold IsingModel.bondVars IsingModel.bondConst Gen.bonds_fn_timestep
-  by_cases h1 : b < m.edges.length
-  · simp [h1]
-    try omega
-  · by_cases h2 : b < m.edges.length + m.nvars
-    · simp [h1, h2]
-      try omega
-    · simp [h1, h2]
-      try omega
-
-theorem bonds_fn_single_diagonal_step_agree : Gen.bonds_fn_single_diagonal_step = Gen.bonds_fn_timestep := rfl
-theorem bonds_fn_single_rvb_sweep_agree : Gen.bonds_fn_single_rvb_sweep = Gen.bonds_fn_timestep := rfl
-theorem bonds_fn_set_enable_heatbath_agree : Gen.bonds_fn_set_enable_heatbath = Gen.bonds_fn_timestep := rfl
-
-/-! ### the matrices `into_qmc` hands to the generic sampler -/
-
-theorem into_qmc_edge_matrix_agree : edgeMat = Gen.into_qmc_edge_matrix := rfl
-theorem into_qmc_transverse_matrix_agree : transverseMat = Gen.into_qmc_transverse_matrix := rfl
-theorem into_qmc_field_matrix_agree : fieldMat = Gen.into_qmc_field_matrix := rfl
-
-/-! ### replicated closures of qmc_ising.rs / qmc_runner.rs (the translator REQUIRES the copies identical) -/
-
-/-- the cluster-weight / ising-ratio closure: 0 on the longitudinal-field bonds, 1 elsewhere -/
-theorem cluster_weight_timestep_agree (bond nedges nvars : Nat) :
-    Gen.cluster_weight_timestep bond nedges nvars = if nedges + nvars ≤ bond then 0 else 1 := by
-  unfold Gen.cluster_weight_timestep
-  by_cases h : nedges + nvars ≤ bond <;> simp [h]
-
-theorem cluster_weight_single_cluster_step_agree :
-    Gen.cluster_weight_single_cluster_step = Gen.cluster_weight_timestep := rfl
-theorem ising_ratio_single_rvb_sweep_agree : Gen.ising_ratio_single_rvb_sweep = Gen.cluster_weight_timestep := rfl
-theorem ising_ratio_timestep_agree : Gen.ising_ratio_timestep = Gen.cluster_weight_timestep := rfl
-
-/-- SamplerCore.lean `IsingSampler.frozenBond` ("the closure returns 0.0 on bond b"), field on -/
-theorem cluster_weight_agree_samplerCore (s : Sampler.IsingSampler) (hh : s.spec.h ≠ 0) (b : Nat) :
-    s.frozenBond b = decide (Gen.cluster_weight_timestep b s.spec.nedges s.spec.nvars = 0) := by
-  rw [cluster_weight_timestep_agree]
-  unfold Sampler.IsingSampler.frozenBond
-  by_cases h : s.spec.nedges + s.spec.nvars ≤ b <;> simp [hh, h]
-
-/-- Rvb.lean derives the ratio of an operator inside the flipped region from the matrix elements; on a legal
-operator (positive weight) it is the translated `ising_ratio` closure — two-site bond -/
-theorem ising_ratio_agree_rvb_edge (E : Rvb.Ising) (bond : Nat) (a b : Bool) (hb : bond < E.edges.length)
-    (hpos : 0 < E.w bond [a, b] [a, b]) :
-    E.w bond [!a, !b] [!a, !b] / E.w bond [a, b] [a, b] =
-      Gen.ising_ratio_timestep bond E.edges.length E.nvars := by
-  have hne : ¬ (E.edges.length + E.nvars ≤ bond) := by omega
-  have hflip : E.w bond [!a, !b] [!a, !b] = E.w bond [a, b] [a, b] := by
-    cases a <;> cases b <;> simp [Rvb.Ising.w, hb, Rvb.twoSite]
-  rw [ising_ratio_timestep_agree, cluster_weight_timestep_agree, hflip, if_neg hne]
-  exact div_self (ne_of_gt hpos)
-
-/-- … transverse bond -/
-theorem ising_ratio_agree_rvb_transverse (E : Rvb.Ising) (bond : Nat) (i : Bool) (h1 : E.edges.length ≤ bond)
-    (h2 : bond < E.edges.length + E.nvars) (hpos : 0 < E.w bond [i] [i]) :
-    E.w bond [!i] [!i] / E.w bond [i] [i] = Gen.ising_ratio_timestep bond E.edges.length E.nvars := by
-  have hne : ¬ (E.edges.length + E.nvars ≤ bond) := by omega
-  have hlt : ¬ (bond < E.edges.length) := by omega
-  have hflip : E.w bond [!i] [!i] = E.w bond [i] [i] := by simp [Rvb.Ising.w, hlt, h2]
-  rw [ising_ratio_timestep_agree, cluster_weight_timestep_agree, hflip, if_neg hne]
-  exact div_self (ne_of_gt hpos)
-
-/-- … longitudinal bond: the flipped operator has weight 0 -/
-theorem ising_ratio_agree_rvb_field (E : Rvb.Ising) (bond : Nat) (i : Bool)
-    (h2 : E.edges.length + E.nvars ≤ bond) (hpos : 0 < E.w bond [i] [i]) :
-    E.w bond [!i] [!i] / E.w bond [i] [i] = Gen.ising_ratio_timestep bond E.edges.length E.nvars := by
-  have h1 : ¬ (bond < E.edges.length) := by omega
-  have h3 : ¬ (bond < E.edges.length + E.nvars) := by omega
-  have hflip : E.w bond [!i] [!i] = 0 := by
-    cases i <;> simp [Rvb.Ising.w, h1, h3, Rvb.longitudinal, Rvb.absR] at hpos ⊢ <;> split_ifs at hpos ⊢ <;> linarith
-  rw [ising_ratio_timestep_agree, cluster_weight_timestep_agree, hflip, if_pos h2]
-  simp
-
-/-- the RVB diagonal edge weight closure, instantiated with the model's Hamiltonian and edge list, is Rvb.lean's
-`twoSite` of that edge -/
-theorem rvb_edge_weight_agree_rvb (E : Rvb.Ising) (b u v : Nat) (j : Rat) (sa sb : Bool)
-    (he : E.edges[b]? = some (u, v, j)) :
-    Gen.rvb_edge_weight_timestep_field
-        (fun b => ((E.edges.getD b (0, 0, 0)).1, (E.edges.getD b (0, 0, 0)).2.1))
-        (fun _ b i o => E.w b i o) b sa sb = Rvb.twoSite j sa sb := by
-  have hb : b < E.edges.length := by
-    rcases Nat.lt_or_ge b E.edges.length with h | h
-    · exact h
-    · rw [List.getElem?_eq_none h] at he
-      cases he
-  have hg : E.edges[b] = (u, v, j) := by
-    have := List.getElem?_eq_getElem hb
-    rw [this] at he
-    exact Option.some.inj he
-  simp [Gen.rvb_edge_weight_timestep_field, Rvb.Ising.w, hb, hg]
-
-theorem rvb_edge_weight_timestep_nofield_agree :
-    @Gen.rvb_edge_weight_timestep_nofield = @Gen.rvb_edge_weight_timestep_field := rfl
-theorem rvb_edge_weight_single_rvb_sweep_field_agree :
-    @Gen.rvb_edge_weight_single_rvb_sweep_field = @Gen.rvb_edge_weight_timestep_field := rfl
-theorem rvb_edge_weight_single_rvb_sweep_nofield_agree :
-    @Gen.rvb_edge_weight_single_rvb_sweep_nofield = @Gen.rvb_edge_weight_timestep_field := rfl
-
-/-- every cluster update flips with probability 1/2 -/
-theorem cluster_flip_prob_agree :
-    Gen.cluster_flip_prob_single_cluster_step_field = 1 / 2 ∧ Gen.cluster_flip_prob_single_cluster_step_sym = 1 / 2 ∧
-    Gen.cluster_flip_prob_timestep_field = 1 / 2 ∧ Gen.cluster_flip_prob_timestep_sym = 1 / 2 ∧
-    Gen.cluster_flip_prob_cluster_update_sym = 1 / 2 := ⟨rfl, rfl, rfl, rfl, rfl⟩
-
-/-- every free-spin refresh draws with probability 1/2 -/
-theorem free_refresh_prob_agree :
-    Gen.free_refresh_prob_single_cluster_step = 1 / 2 ∧ Gen.free_refresh_prob_timestep = 1 / 2 ∧
-    Gen.free_refresh_prob_flip_free_bits = 1 / 2 := ⟨rfl, rfl, rfl⟩
-
-/-- SamplerCore.lean `isingTimestepWith` with the translated flip probability and cutoff rule in place -/
-theorem cluster_flip_prob_agree_isingTimestep (CK : Sampler.ClusterK) (s : Sampler.IsingSampler) (β : Rat) (rs : RS) :
-    Sampler.isingTimestepWith CK s β rs =
-      (let H := s.spec.ham
-       let d := Sampler.diagUpdate H s.table β s.cutoff s.cfg rs
-       let m := CK Gen.cluster_flip_prob_timestep_field s.frozenBond d.1 d.2
-       let r := Sampler.freeRefresh m.1 m.2
-       ({ s with state := r.1.state, slots := r.1.slots,
-                 cutoff := Gen.cutoff_rule_timestep s.cutoff (countOps r.1.slots) }, r.2)) := rfl
-
-/-- SamplerCore.lean `genericTimestepWith` with the translated flip probability in place -/
-theorem cluster_flip_prob_agree_genericTimestep (LK : Sampler.LoopK) (CK : Sampler.ClusterK) (s : Sampler.GenericSampler)
-    (β : Rat) (rs : RS) :
-    Sampler.genericTimestepWith LK CK s β rs =
-      (let d := Sampler.genericDiagonalUpdate s β rs
-       let l := if d.1.doLoop then LK d.1.ham.w d.1.cfg d.2 else (d.1.cfg, d.2)
-       let m := if d.1.shouldCluster then CK Gen.cluster_flip_prob_cluster_update_sym (fun _ => false) l.1 l.2 else l
-       let r := Sampler.freeRefresh m.1 m.2
-       (d.1.withCfg r.1, r.2)) := rfl
-
-/-- SamplerCore.lean `refreshAux`: the draw of a variable without operators uses the translated probability -/
-theorem free_refresh_prob_agree_samplerCore (s : Slots) (v : Nat) (x : Bool) (t : List Bool) (rs : RS) :
-    Sampler.refreshAux s v (x :: t) rs =
-      (if Sampler.hasOps s v then
-        (let r := Sampler.refreshAux s (v + 1) t rs
-         (x :: r.1, r.2))
-      else
-        (let d := rs.genBool Gen.free_refresh_prob_timestep
-         let r := Sampler.refreshAux s (v + 1) t d.2
-         (d.1 :: r.1, r.2))) := by
-  rw [Sampler.refreshAux]
-  rfl
-
-/-- Generic.lean `flipFreeBitsFrom` -/
-theorem free_refresh_prob_agree_generic (slots : Slots) (fuel v : Nat) (st : List Bool) (rs : RS) :
-    flipFreeBitsFrom slots (fuel + 1) v st rs =
-      (if varHasOps slots v then flipFreeBitsFrom slots fuel (v + 1) st rs
-       else
-        (let (b, rs) := rs.genBool Gen.free_refresh_prob_flip_free_bits
-         flipFreeBitsFrom slots fuel (v + 1) (st.set v b) rs)) := by
-  rw [flipFreeBitsFrom]
-  rfl
-
-/-- `steps_to_run` (no hand model computes it: the RVB models take the number of proposals as an input) -/
-theorem steps_to_run_timestep_agree (n : Nat) : Gen.steps_to_run_timestep n = (n + 1) / 2 := rfl
-theorem steps_to_run_single_rvb_sweep_agree : Gen.steps_to_run_single_rvb_sweep = Gen.steps_to_run_timestep := rfl
-
-/-- the `h` closures just forward to `Self::hamiltonian(&hinfo, …)` -/
-theorem h_closure_timestep_agree : @Gen.h_closure_timestep = fun f => f := rfl
-theorem h_closure_single_diagonal_step_agree : @Gen.h_closure_single_diagonal_step = @Gen.h_closure_timestep := rfl
-theorem h_closure_single_rvb_sweep_agree : @Gen.h_closure_single_rvb_sweep = @Gen.h_closure_timestep := rfl
-theorem h_closure_set_enable_heatbath_agree : @Gen.h_closure_set_enable_heatbath = @Gen.h_closure_timestep := rfl
-
-/-- Ham.lean `isingHam`: its weight function is the translated `h` closure over `IsingModel.hamiltonian` -/
-theorem h_closure_agree_isingHam (m : IsingModel) (vars : List Nat) (b : Nat) (i o : List Bool) (hb : b < m.numBonds) :
-    (isingHam m).w b i o = Gen.h_closure_timestep (fun _ b i o => m.hamiltonian b i o) vars b i o := by
-  simp [isingHam, hb, Gen.h_closure_timestep]
-
-/-! ### `get_mat_var_size` (src/sse/qmc_runner.rs) -/
-
-theorem mat_var_size_rule_agree (len : Nat) :
-    getMatVarSize len = (getPowerOfTwo len).bind Gen.mat_var_size_rule := by
-  unfold getMatVarSize Gen.mat_var_size_rule
-  cases getPowerOfTwo len with
-  | none => rfl
-  | some i => simp [Nat.shiftRight_eq_div_pow]
-
-end Qmc.PureFnsAgree
+import QmcProofs.PureFnsAgree.Prelude
